@@ -74,11 +74,16 @@ func canFill(t reflect.Type, depth int) bool {
 var optNamesA = []string{"foo", "bar", "f", "abs", "lower", "upper", "nvl", "len", "x", "a", "n", "s", "k", "State", "T", "U", "tolower", "count", "lim", "true"}
 var optNamesB = []string{"tolower", "toupper", "strcat", "isnull", "isnotnull", "not", "iff", "iif", "now", "count", "countif", "sum", "strlen", "a", "b", "x", "1", "'v'", "$1", "U", "other_table", "nope", "clickhouse", ""}
 
+// a string option may be PQL text (a prelude of lets, a default table, a default filter)
+var optSnippets = []string{"let threshold = 5;", "let t = x;", "let a1 = 1; let b1 = a1 + n;", "let s = 'v'", "T", "U | where a > 1", "a == 1", "x", ""}
+
 func fill(r *prng.Rand, t reflect.Type, second bool) reflect.Value {
 	v := reflect.New(t).Elem()
 	switch t.Kind() {
 	case reflect.String:
-		if second {
+		if !second && r.Chance(1, 2) {
+			v.SetString(optSnippets[r.Intn(len(optSnippets))])
+		} else if second {
 			v.SetString(optNamesB[r.Intn(len(optNamesB))])
 		} else {
 			v.SetString(optNamesA[r.Intn(len(optNamesA))])
